@@ -175,7 +175,7 @@ def lockstep(ctx, R, tog):
                 ctx.violation(R, 'callsite:%s:%s' % (key2, sh(a, 60)),
                               'toggle called with a set that is not a single-square constructor: %s (the key uses only its '
                               'lowest square)' % sh(a, 200), where(s2.body, c['line']))
-    ctx.floor(R, 'call sites of the lock-step toggle', n, 27)
+    ctx.floor(R, 'call sites of the lock-step toggle', n, 10)
     return ok
 
 
